@@ -296,7 +296,7 @@ pub fn run_case(case: &Value, idx: u64, out: &mut Out) {
         return;
     };
     let mut variants = Vec::new();
-    for kind in ["large", "spare", "padded", "kids"] {
+    for kind in ["large", "spare", "padded", "long", "kids"] {
         let vb = from_bytes(&case[kind]);
         if vb.is_empty() {
             continue;
